@@ -452,6 +452,8 @@ static void conc_case(uint64_t case_idx) {
         mon_flag(F_UPTO_PARTIAL);
     }
     mon_fp(perturb_signature());
+    mon_distinct("interleaving_signatures", perturb_signature());
+
     mon_count("conc_acquisitions", n_total);
     mon_count("conc_acquire_retries_ring_full", fails);
     mon_count("conc_releases_completed_during_an_acquire_call", during);
